@@ -208,6 +208,21 @@ def stream(r, n_random, thorough=False):
         S.append(('ms_badn', b'\x51' + key() + key() + bytes([bad, 0xae]))); S.append(('ms_badn', b'\x52' + key() + key() + bytes([0x52, bad])))
     S += [('ms_wrongn', b'\x51' + key() + key() + b'\x53\xae'), ('ms_wrongn', b'\x53' + key() + key() + b'\x52\xae'), ('ms_trailing', b'\x51' + key() + b'\x51\xae\x61'),
           ('ms_trunc', b'\x51' + key() + b'\x51'), ('ms_pd', b'\x51' + b'\x4c\x21\x02' + rb(r, 32) + b'\x51\xae'), ('ms_badpush', b'\x51\x21' + rb(r, 5) + b'\x51\xae')]
+    # every opcode in a key slot of a multisig frame (non-push items are not keys: OP_0..OP_16, OP_1NEGATE, OP_RESERVED, NOPs, ...), first / middle / last slot
+    for c in range(256):
+        if 1 <= c <= 0x4e: continue       # direct pushes and PUSHDATA are covered by the slot forms below
+        S += [('ms_slotop', b'\x51' + key() + bytes([c]) + b'\x52\xae'), ('ms_slotop', b'\x51' + bytes([c]) + key() + b'\x52\xae'),
+              ('ms_slotop', b'\x52' + key() + bytes([c]) + key() + b'\x53\xae'), ('ms_slotop', b'\x51' + bytes([c]) + b'\x51\xae')]
+    # fixed witness programs that implementations are known to special-case (pay-to-anchor) and their neighbours; BIP173/BIP350 test-vector programs
+    for w in ['51024e73', '51024e74', '51024f73', '52024e73', '60024e73', '00024e73', '51034e7300', '51024e7361', '5102734e', '4e73', '51014e', '5128' + '4e73' * 20,
+              '0014751e76e8199196d454941c45d1b3a323f1433bd6', '00201863143c14c5166804bd19203356da136c985678cd4d27a1b8c6329604903262', '5210751e76e8199196d454941c45d1b3a323',
+              '6002751e', '5128751e76e8199196d454941c45d1b3a323f1433bd6751e76e8199196d454941c45d1b3a323f1433bd6', '512079be667ef9dcbbac55a06295ce870b07029bfcdb2dce28d959f2815b16f81798']:
+        S.append(('witness:fixed', bytes.fromhex(w)))
+    # the same 20 bytes under several templates back to back (a verdict remembered per hash / per payload would leak from one script to the next)
+    for _ in range(6):
+        h = rb(r, 20); k33 = b'\x02' + rb(r, 32)
+        S += [('samehash', P2PKH(h)), ('samehash', P2SH(h)), ('samehash', b'\x00\x14' + h), ('samehash', P2PKH(h)), ('samehash', b'\x6a\x14' + h), ('samehash', P2SH(h)),
+              ('samehash', b'\x21' + k33 + b'\xac'), ('samehash', b'\x51\x21' + k33 + b'\x51\xae'), ('samehash', b'\x21' + k33 + b'\xac')]
     # push forms in every template slot, zero-length and huge pushes, truncated at every position (incl. inside the length field)
     slots = {'p2pkh': (b'\x76\xa9', b'\x88\xac'), 'p2pk': (b'', b'\xac'), 'p2sh': (b'\xa9', b'\x87'), 'opret': (b'\x6a', b''), 'ms23': (b'\x52' + key() + key(), b'\x53\xae')}
     for name, (pre, post) in slots.items():
